@@ -88,11 +88,17 @@ func c04Input(r *core.Rand) inputs.Input {
 			in.P = []int{0, 10, 3000, 3100}[r.Intn(4)]
 		}
 	case v < 94:
-		fams := []string{"png", "gif", "pdf", "zip", "docx", "docx", "ole", "elf", "gzip", "random"}
+		fams := []string{"png", "gif", "pdf", "zip", "docx", "docx", "ole", "elf", "gzip", "random", "tar", "tar", "sample", "sample", "sample"}
 		in.Fam = fams[r.Intn(len(fams))]
 		in.P = []int{10, 100, 2900, 3100, 5000}[r.Intn(5)]
 		if in.N > 60000 && in.Fam != "random" {
 			in.N = r.Range(10, 4000)
+		}
+		if in.Fam == "sample" {
+			in.V, in.P = r.Intn(64), 0
+		}
+		if in.Fam == "tar" {
+			in.V = r.Intn(4)
 		}
 	default:
 		fams := []string{"empty", "rtf", "srt", "vcard"}
